@@ -186,9 +186,14 @@ func (r *refFS) chmod(name string, mode int64) bool {
 
 var c02Parents = []string{"", "/d", "/e", "/f", "/missing", "/\xc3\xa9\xc3\xa9"}
 
+// c02Plain: the two-call histories of the thorough tier keep the index as the running instance stores it and hand
+// over canonical spellings only (both dimensions are covered by the one-call runs; together with a first call they
+// did not finish within the thorough budget).
+var c02Plain bool
+
 func c02Prestate() (*verifFS, *refFS) {
 	v := verifNewFS(config.PipeConfig{}, false, true)
-	if vm.Bool("rebuiltIndex") {
+	if !c02Plain && vm.Bool("rebuiltIndex") {
 		// the instance was opened over an index rebuilt from the tape: names are stored relative to the root ""
 		v.Env.RelNames = true
 		v.Env.AddEntry("/", tar.TypeDir, 0, false, "")
@@ -279,7 +284,7 @@ func c02Step(v *verifFS, ref *refFS, tag string, light bool) bool {
 	}
 	// the reference works on the canonical path; the filesystem is handed an equivalent spelling of it
 	canon := name
-	if !light {
+	if !light && !c02Plain {
 		switch vm.Choice(tag+"spelling", 3) {
 		case 1:
 			name = name[1:]
@@ -435,8 +440,10 @@ func c02Step(v *verifFS, ref *refFS, tag string, light bool) bool {
 // failed call changes nothing. Thorough tier: a first call from a small concrete vocabulary precedes it, so
 // that the symbolic call also runs from states the filesystem produced itself.
 func Harness_C02_single_call_matches_reference() {
+	twoCalls := vm.Tier() == "thorough" && vm.Bool("twoCalls")
+	c02Plain = twoCalls
 	v, ref := c02Prestate()
-	if vm.Tier() == "thorough" && vm.Bool("twoCalls") {
+	if twoCalls {
 		if !c02Step(v, ref, "a.", true) {
 			return
 		}
